@@ -4,13 +4,29 @@ use crate::pipeline::{self, codegen, Arch, StageError};
 use printer::Print;
 use serde_json::json;
 
-pub const FAMILIES: [&str; 13] = ["seq_if", "nested_if", "seq_match2", "seq_match3", "let_chain_match", "label_critical_pair", "if_in_match", "seq_if_codata", "match_in_args", "case_of_case", "case_of_if", "dtor_of_if", "if_of_case_cond"];
+pub const FAMILIES: [&str; 15] = ["nested_let_codata2", "nested_let_data_producer", "seq_if", "nested_if", "seq_match2", "seq_match3", "let_chain_match", "label_critical_pair", "if_in_match", "seq_if_codata", "match_in_args", "case_of_case", "case_of_if", "dtor_of_if", "if_of_case_cond"];
 
-const DECLS: &str = "data List[A] { Nil, Cons(x: A, xs: List[A]) }\ndata Tri { T0, T1(a: i64), T2(a: i64, b: i64) }\ncodata Fun[A, B] { ap(x: A): B }\ndata En { E0, E1, E2(a: i64) }\ndata Bl { Tr, Fa }\n";
+const DECLS: &str = "data List[A] { Nil, Cons(x: A, xs: List[A]) }\ndata Tri { T0, T1(a: i64), T2(a: i64, b: i64) }\ncodata Fun[A, B] { ap(x: A): B }\ndata En { E0, E1, E2(a: i64) }\ndata Bl { Tr, Fa }\ncodata LP { fst: i64, snd: i64 }\ndef mk(v: i64): LP { new { fst => v, snd => v + 1 } }\ndef wrap(p: LP): LP { new { fst => p.snd, snd => p.fst } }\ndef rot(t: Tri): Tri { t.case { T0 => T1(1), T1(a) => T2(a, a), T2(a, b) => T0 } }\n";
 
 pub fn family_source(fam: &str, k: usize) -> String {
     let mut body = String::new();
     match fam {
+        "nested_let_codata2" => {
+            // lets at a two-destructor codata type nested on the PRODUCER side, each continuation a leaf
+            let mut t = String::from("mk(n)");
+            for i in 0..k {
+                t = format!("(let p{i}: LP = {t}; wrap(p{i}))");
+            }
+            body.push_str(&format!("let r: LP = {t}; (r.fst) + (r.snd)"));
+        }
+        "nested_let_data_producer" => {
+            // the same shape at a data type with three constructors
+            let mut t = String::from("w");
+            for i in 0..k {
+                t = format!("(let p{i}: Tri = {t}; rot(p{i}))");
+            }
+            body.push_str(&format!("let r: Tri = {t}; r.case {{ T0 => 0, T1(a) => a, T2(a, b) => a + b }}"));
+        }
         "seq_if" => {
             for i in 0..k {
                 body.push_str(&format!("let v{i}: i64 = if n == {i} {{ n + {i} }} else {{ n - {i} }}; "));
@@ -117,7 +133,7 @@ pub fn family_source(fam: &str, k: usize) -> String {
 }
 
 /// One-hole contexts (hole and result of type i64; `I` is the nesting index, so binders are distinct).
-pub const CONTEXTS: [(&str, &str); 28] = [
+pub const CONTEXTS: [(&str, &str); 30] = [
     ("let_if", "let v@: i64 = if n == @ { n + @ } else { n - @ }; (#) + v@"),
     ("let_case", "let v@: i64 = l.case[i64] { Nil => @, Cons(h, t) => h + @ }; (#) + v@"),
     ("if_then", "if n == @ { # } else { @ }"),
@@ -151,6 +167,10 @@ pub const CONTEXTS: [(&str, &str); 28] = [
     ("let_label_data", "let o@: Tri = label k@ { T1(if n == @ { goto k@ (T0) } else { n }) }; o@.case { T0 => @, T1(a@) => #, T2(a@, b@) => @ }"),
     ("label_scrutinee", "(label k@ { Cons(if n == @ { goto k@ (Nil) } else { n }, Nil) }).case[i64] { Nil => @, Cons(h@, t@) => # }"),
     ("label_receiver", "(label k@ { new { ap(q@) => q@ + (if n == @ { 1 } else { 2 }) } }).ap[i64, i64](#)"),
+    // a let at a codata type with two destructors whose continuation is a leaf (call) while the
+    // bound term is not: nested on the producer side / chained
+    ("let_codata2_call", "let p@: LP = wrap(mk(n + @)); (p@.fst) + (#)"),
+    ("let_codata2_nested", "(let p@: LP = (let q@: LP = mk(#); wrap(q@)); wrap(p@)).snd"),
 ];
 
 /// `k` applications of the contexts `a, b, a, b, ...` around a leaf.
